@@ -57,10 +57,39 @@ const (
 // URL guard (the function whose result decides whether URLSanitized keeps its
 // input) returns true.
 type urlGuard struct {
-	Fn      *ssa.Function
+	Fn      *ssa.Function // nil when the guard is not one function (decided by the language of the result)
 	Form    *Form
 	Summ    *Summarizer
 	Regexes map[string]*RegexConst
+	Name    string
+	Pos     string
+}
+
+// GuardForm: the guard's condition on term #key.
+func (g *urlGuard) GuardForm(s *Summarizer, key int) *Form {
+	if g.Fn != nil {
+		return s.FuncForm(g.Fn, termEnv{g.Fn.Params[0]: Term{Param: key}})
+	}
+	return renameTermForm(g.Form, 0, key)
+}
+
+// renameTermForm: a copy of f in which every atom about parameter #from is about parameter #to.
+func renameTermForm(f *Form, from, to int) *Form {
+	if f == nil {
+		return nil
+	}
+	n := &Form{Op: f.Op, Why: f.Why, In: f.In}
+	for _, s := range f.Sub {
+		n.Sub = append(n.Sub, renameTermForm(s, from, to))
+	}
+	if f.Atom != nil {
+		a := *f.Atom
+		if a.Term.Param == from {
+			a.Term.Param = to
+		}
+		n.Atom = &a
+	}
+	return n
 }
 
 func findURLGuard(p *Program, r *Report, rule string) *urlGuard {
@@ -69,6 +98,68 @@ func findURLGuard(p *Program, r *Report, rule string) *urlGuard {
 		r.Undec(rule, "safehtml.URLSanitized", "", "anchor not found")
 		return nil
 	}
+	shape := NewReport(r.Property, r.Tier, r.Seed)
+	g := findURLGuardShape(p, shape, rule, fn)
+	if g != nil && !reportFails(shape) {
+		mergeObls(r, shape)
+		return g
+	}
+	lang := NewReport(r.Property, r.Tier, r.Seed)
+	if g2 := findURLGuardByLanguage(p, lang, rule, fn); g2 != nil && !reportFails(lang) {
+		mergeObls(r, lang)
+		return g2
+	}
+	mergeObls(r, shape)
+	return g
+}
+
+func mergeObls(dst, src *Report) {
+	dst.Obls = append(dst.Obls, src.Obls...)
+	for k, v := range src.Counts {
+		dst.Counts[k] += v
+	}
+}
+
+// findURLGuardByLanguage: the result of URLSanitized, with the input replaced by a placeholder, is the input or
+// the innocuous constant; the guard is the disjunction of the conditions under which the input is returned.
+func findURLGuardByLanguage(p *Program, r *Report, rule string, fn *ssa.Function) *urlGuard {
+	regs, _ := p.AllRegexes()
+	s := NewSummarizer(p, regs)
+	oe := newOutEval(p, s)
+	oe.Markers = true
+	fr := oe.topFrame(fn)
+	var alts []*lx
+	for _, ret := range Returns(fn) {
+		alts = append(alts, oe.strLx(ret.Results[0], ret.Block(), fr))
+	}
+	x := lxAlt(alts...)
+	pos := p.Pos(fn.Pos())
+	m0 := string(markerRune(0))
+	d, L, err := oe.Language(x, func(L *Lang) { L.AddString(m0 + specInnocuousURL) })
+	if err != nil || len(oe.Problems) > 0 || lxHasAny(x) {
+		r.Undec(rule, "safehtml.URLSanitized#shape", pos, "the result is built in a way the evaluator cannot follow: "+trunc(x.String(), 200))
+		return nil
+	}
+	want := relang.Union(relang.Literal(L.A, m0), relang.Literal(L.A, specInnocuousURL))
+	if ok, w := relang.Equivalent(d, want); !ok {
+		r.Viol(rule, "safehtml.URLSanitized#store-other", pos, "URLSanitized may return something that is neither its input nor the innocuous URL (or never one of them): "+trunc(x.String(), 200), w)
+		return nil
+	}
+	r.OK(rule, "safehtml.URLSanitized#store-input", pos, "by language: the result is the input itself or the innocuous constant")
+	r.OK(rule, "safehtml.URLSanitized#store-const", pos, "fallback constant is "+specInnocuousURL)
+	forms := oe.termForms[0]
+	if len(forms) == 0 {
+		return nil
+	}
+	f := fOr(forms...)
+	per, _ := splitByParam(f)
+	if per[0] != nil {
+		f = per[0]
+	}
+	return &urlGuard{Fn: nil, Form: f, Summ: s, Regexes: regs, Name: "safehtml.URLSanitized#returns-input-when", Pos: pos}
+}
+
+func findURLGuardShape(p *Program, r *Report, rule string, fn *ssa.Function) *urlGuard {
 	// a pattern that cannot be resolved to a constant makes the guard that uses it unsummarisable (reported
 	// there); unresolved patterns elsewhere in the repository are no concern of this property
 	regs, _ := p.AllRegexes()
@@ -124,7 +215,7 @@ func findURLGuard(p *Program, r *Report, rule string) *urlGuard {
 	}
 	env[guardFn.Params[0]] = Term{Param: 0}
 	f := s.FuncForm(guardFn, env)
-	return &urlGuard{Fn: guardFn, Form: f, Summ: s, Regexes: regs}
+	return &urlGuard{Fn: guardFn, Form: f, Summ: s, Regexes: regs, Name: fnName(guardFn), Pos: p.Pos(guardFn.Pos())}
 }
 
 func registerSumm(l *Lang, s *Summarizer, f *Form) error {
@@ -170,8 +261,8 @@ func runURLGuardRules(p *Program, r *Report, pfx string, full bool) {
 		r.Undec(rn(2), "url-guard", "", "guard function not found")
 		return
 	}
-	gname := fnName(g.Fn)
-	pos := p.Pos(g.Fn.Pos())
+	gname := g.Name
+	pos := g.Pos
 	if u, why := g.Form.HasUnknown(); u {
 		r.Undec(rn(2), gname, pos, "guard not summarisable: "+why+" in "+g.Form.String())
 		return
